@@ -83,7 +83,6 @@ HISTORY = {
     "C05-5": ("caught (round 3)", ""),
     "C05-6": ("caught by C15 only (round 3)", ""),
     "C06-5": ("missed (round 3)", "C06 no-panic: a constant index k is discharged only if the dominating conditions guarantee len > k"),
-    "C07-5": ("missed (round 3)", "C01/C07 wrong-epoch-source; analysis.arm_only no longer treats an or-pattern arm shared with a disallowed variant as allowed"),
     "C08-5": ("caught by C16 only (round 3)", ""),
     "C09-5": ("missed (round 3)", "C09 sql-scope/*/key-representation (OpenMLS tables bound to the MlsCodec-serialised id, MDK tables to the raw id)"),
     "C19-2": ("caught by C09/C12 only", "C19 one-critical-section: only the group-existence pre-check is exempt on SQLite"),
